@@ -66,6 +66,9 @@ pub fn run_scenarios(property: &str, args: &Args, scenarios: Vec<Scenario>, tota
 		let mut by_cause: Vec<mc_common::explore::FoundViolation> = Vec::new();
 		let mut generic = 0;
 		for f in found.into_iter() {
+			if std::env::var("MC_ALL_VIOL").is_ok() {
+				eprintln!("ALLVIOL [{}] {} {} :: {}", sc.name, f.failure.oracle, f.failure.detail, f.actions.join(","));
+			}
 			if f.failure.detail.starts_with("fields=") {
 				let key = f.failure.detail.split(':').next().unwrap_or("").to_string();
 				if !by_cause.iter().any(|g| g.failure.detail.starts_with(&key) && g.failure.oracle == f.failure.oracle) {
